@@ -577,10 +577,20 @@ def witness_covers(unit_name):
         return False
     need = _fn_quals(os.path.join(d, 'unit.rs'))
     have = _fn_quals(w)
-    if bool(need) and need <= have:
+    # a replay program that takes a whole source file (`//@@ file <path> mod=..`) runs every function of that file
+    whole = set()
+    try:
+        for l in gen.expand_includes(open(w, encoding='utf-8').read().split('\n')):
+            t = l.strip()
+            if t.startswith('//@@ file '):
+                whole.add(t.split()[2])
+    except Exception:
+        pass
+    covered = lambda fq: fq in have or fq[0] in whole
+    if bool(need) and all(covered(fq) for fq in need):
         return True
     ch = changed_fns(unit_name)
-    return bool(ch) and ch <= have
+    return bool(ch) and all(covered(fq) for fq in ch)
 
 
 DEGRADABLE = ('extraction:', 'front end:', 'undeclared ')
